@@ -253,4 +253,94 @@ Section Insert.
       eapply wfn_in_vals_elements; eassumption.
   Qed.
 
+  (* ------------------------------------------------------------------ zix_btree_insert: the descent *)
+  (* what a status says about the listing before and after *)
+  Definition ins_rel (e : elt) (st : status) (old new : list elt) : Prop :=
+    match st with
+    | SUCCESS => (forall x, In x old -> rank x <> rank e) /\ new = ins_sorted rank e old
+    | EXISTS => (exists x, In x old /\ rank x = rank e) /\ new = old
+    | NO_MEM => new = old
+    | _ => False
+    end.
+
+  Lemma ins_rel_lift : forall e st l1 m m' l2,
+    (forall x, In x l1 -> (rank x < rank e)%Z) -> (forall x, In x l2 -> (rank e < rank x)%Z) ->
+    ins_rel e st m m' -> ins_rel e st (l1 ++ m ++ l2) (l1 ++ m' ++ l2).
+  Proof.
+    intros e st l1 m m' l2 H1 H2 H. destruct st; cbn [ins_rel] in *; try contradiction.
+    - destruct H as [Hne ->]. split; [|symmetry; apply ins_sorted_sandwich; assumption].
+      intros x Hx. apply in_app_or in Hx as [Hx|Hx]; [specialize (H1 _ Hx); lia|].
+      apply in_app_or in Hx as [Hx|Hx]; [auto|specialize (H2 _ Hx); lia].
+    - subst. reflexivity.
+    - destruct H as [[x [Hx E]] ->]. split; [|reflexivity]. exists x. split; auto.
+      apply in_or_app. right. apply in_or_app. auto.
+  Qed.
+
+  (* postcondition of insert_down on a subtree of height f *)
+  Definition post_ok (f : nat) (e : elt) (n : node) (o : list bool)
+             (res : status * node * list bool * list elt) : Prop :=
+    let '(st, n', o', lg) := res in
+    kids_ok L I f n' /\ is_leaf n' = is_leaf n /\ n_vals n <= n_vals n' <= max_vals L I n' /\
+    ins_rel e st (elements n) (elements n') /\
+    (forall b, In b o' -> In b o) /\ ((forall b, In b o -> b = true) -> st <> NO_MEM) /\
+    (forall x, In x lg -> In x (elements n)).
+
+  Lemma post_ok_transfer : forall f e n n1 o o1 res,
+    elements n1 = elements n -> is_leaf n1 = is_leaf n -> n_vals n <= n_vals n1 ->
+    (forall b, In b o1 -> In b o) ->
+    post_ok f e n1 o1 res -> post_ok f e n o res.
+  Proof.
+    intros f e n n1 o o1 [[[st n'] o'] lg] Hel Hleaf Hn Ho (H1 & H2 & H3 & H4 & H5 & H6 & H7).
+    unfold post_ok. rewrite <- Hel, <- Hleaf.
+    split; [|split; [|split; [|split; [|split; [|split]]]]]; auto; try lia.
+  Qed.
+
+  Lemma alloc_spec : forall o ok o1, alloc o = (ok, o1) ->
+    (forall b, In b o1 -> In b o) /\ ((forall b, In b o -> b = true) -> ok = true).
+  Proof.
+    intros [|b o] ok o1 E; cbn in E; injection E as <- <-; split; auto.
+    - intros b0 Hb. right. assumption.
+    - intros H. apply H. left. reflexivity.
+  Qed.
+
+  Lemma descend_bounds : forall e vs cs i, length cs = S (length vs) -> i <= length vs ->
+    asc (elements (Inode vs cs)) ->
+    (forall j, j < i -> cmpk rank e (nth j vs dflt) = Lt) ->
+    (forall j, i <= j < length vs -> cmpk rank e (nth j vs dflt) = Gt) ->
+    (forall x, In x (pre vs cs i) -> (rank x < rank e)%Z) /\
+    (forall x, In x (post vs cs i) -> (rank e < rank x)%Z).
+  Proof.
+    intros e vs cs i Hl Hi Ha Hlt Hgt.
+    pose proof (cmpk_mono _ rank dflt e _ Ha) as Hm.
+    split; intros x Hx.
+    - apply (cmpk_Lt _ rank dflt). apply (sep_pre _ rank dflt (cmpk rank e) vs cs i); assumption.
+    - apply (cmpk_Gt _ rank dflt). apply (sep_post_gt _ rank dflt (cmpk rank e) vs cs i); assumption.
+  Qed.
+
+  (* going down into child i and putting the rebuilt child back *)
+  Lemma descend : forall f e vs cs i o st c' o' lg lg0,
+    kids_ok L I (S f) (Inode vs cs) -> length vs <= I -> asc (elements (Inode vs cs)) ->
+    i <= length vs ->
+    (forall j, j < i -> cmpk rank e (nth j vs dflt) = Lt) ->
+    (forall j, i <= j < length vs -> cmpk rank e (nth j vs dflt) = Gt) ->
+    (forall x, In x lg0 -> In x (elements (Inode vs cs))) ->
+    post_ok f e (nth i cs dnode) o (st, c', o', lg) ->
+    post_ok (S f) e (Inode vs cs) o (st, Inode vs (aset cs i c'), o', lg0 ++ lg).
+  Proof.
+    intros f e vs cs i o st c' o' lg lg0 Hk HvI Ha Hi Hlt Hgt Hlg0 Hp.
+    pose proof (kids_ok_child _ rank dflt L I HI HI3 f vs cs i Hk Hi) as Hc.
+    destruct Hk as (Hf & Hl & Hfa).
+    destruct (descend_bounds e vs cs i Hl Hi Ha Hlt Hgt) as [Hpre Hpost].
+    destruct Hp as (Hk' & Hleaf & Hn & Hrel & Ho & Hnm & Hlg).
+    unfold post_ok. split; [|split; [|split; [|split; [|split; [|split]]]]]; auto.
+    - cbn [kids_ok]. split; [assumption|]. split; [rewrite length_aset; lia|].
+      apply (Forall_aset _ rank dflt L I HI HI3); [assumption|].
+      apply (wfn_iff _ rank dflt L I HI HI3). split; [assumption|].
+      apply (wfn_iff _ rank dflt L I HI HI3) in Hc. destruct (leaf_eq_vals _ _ Hleaf) as [Hmx Hmn]. lia.
+    - rewrite (elements_aset _ rank dflt) by lia. rewrite (elements_split _ rank dflt vs cs i) by lia.
+      apply ins_rel_lift; assumption.
+    - intros x Hx. apply in_app_or in Hx as [Hx|Hx]; [auto|].
+      apply (in_child_elements _ rank dflt vs cs i); auto.
+  Qed.
+
 End Insert.
